@@ -15,6 +15,8 @@
 
 #define VERIF_ELEM long
 #include "viewprog.hpp"
+#include <memory_resource>
+#include <set>
 
 #include <regex>
 
@@ -61,6 +63,13 @@ static void xml_tokens(std::string const& xml, std::ostream& os) {
 	os << "]";
 }
 
+struct tracking_resource : std::pmr::memory_resource {
+	std::set<void*> live; long foreign = 0;
+	void* do_allocate(std::size_t bytes, std::size_t /*align*/) override { void* p = ::operator new(bytes == 0 ? 1 : bytes); live.insert(p); return p; }
+	void do_deallocate(void* p, std::size_t /*bytes*/, std::size_t /*align*/) override { if(live.erase(p) == 0) { ++foreign; return; } ::operator delete(p); }
+	bool do_is_equal(std::pmr::memory_resource const& o) const noexcept override { return this == &o; }
+};
+
 template<class E, int D> void array_case(long id, std::vector<long> const& sh, std::vector<long> const& fi, std::string const& prior, std::vector<long> const& psh, std::vector<long> const& pfi) {
 	std::ostringstream os;
 	os << "{\"id\":" << id;
@@ -95,6 +104,25 @@ template<class E, int D> void array_case(long id, std::vector<long> const& sh, s
 			auto tgt = make_target();
 			{ boost::archive::xml_iarchive ia(ss); ia >> boost::serialization::make_nvp("arr", tgt); }
 			os << ",\"xml\":"; describe(tgt, os); os << ",\"xml_eq\":" << ((tgt == src) ? "true" : "false");
+		}
+		{   // the same load (text archive) into an array on its OWN memory resource: afterwards the array still names that resource and
+			// holds a block made by it, and every block went back to the resource it came from (relations between observations)
+			tracking_resource mine, dflt;
+			auto* old_default = std::pmr::set_default_resource(&dflt);
+			bool named = false, owned = false;
+			{
+				std::stringstream ss;
+				{ boost::archive::text_oarchive oa(ss); oa << boost::serialization::make_nvp("arr", std::as_const(src)); }
+				multi::pmr::array<E, D> tgt(&mine);
+				if(prior != "empty") { tgt.reextent(xext<D>(psh, pfi)); long k = 0; for(auto& e : tgt.elements()) { e = mkv<E>(7000 + (++k)); } }
+				{ boost::archive::text_iarchive ia(ss); ia >> boost::serialization::make_nvp("arr", tgt); }
+				named = tgt.get_allocator().resource() == &mine;
+				owned = tgt.num_elements() == 0 || mine.live.count(static_cast<void*>(tgt.data_elements())) == 1;
+				os << ",\"pmr_eq\":" << ((tgt == src) ? "true" : "false");
+			}
+			std::pmr::set_default_resource(old_default);
+			os << ",\"pmr_names_its_resource\":" << (named ? "true" : "false") << ",\"pmr_block_from_its_resource\":" << (owned ? "true" : "false")
+			   << ",\"pmr_foreign_deallocations\":" << (mine.foreign + dflt.foreign) << ",\"pmr_left_allocated\":" << (mine.live.size() + dflt.live.size());
 		}
 	});
 	if(!fin) { os << ",\"st\":\"abort\",\"abort\":" << guard::last_json(); }
